@@ -48,6 +48,7 @@ class Program(object):
         self.log = []         # call log: dicts c, args, el
         self.elcount = {}
         self.specsets = []
+        self.variant = int(case.get("variant", 0))
         self.lock = threading.Lock()
         for i, p in enumerate(case["prog"]):
             self._define(i + 1, p)
@@ -163,11 +164,21 @@ class Program(object):
             else:
                 opt.append(self.comp[it["ds"][0]])
         kw = {}
+        deco = DECOS[kind]
+        if kind == "plain" and p["decl"] and (self.variant + c) % 2 == 1:
+            # concretisation variant: a plugin type of its own whose class-level `requires` /
+            # `optional` carry the leading part of the declaration (implicit dependencies)
+            cls_req, cls_opt = [], []
+            if pos:
+                cls_req = [pos.pop(0)]
+            if opt:
+                cls_opt = [opt.pop(0)]
+            deco = type("custom_type_%d" % c, (plugins.PluginType,), {"requires": cls_req, "optional": cls_opt})
         if opt:
-            kw["optional"] = opt
+            kw["optional"] = opt if len(opt) > 1 or (self.variant % 3) else opt[0]
         if kind == "parser":
             kw = {"continue_on_error": bool(p["coe"])}
-        DECOS[kind](*pos, **kw)(body)
+        deco(*pos, **kw)(body)
         self._bind(c, body, p)
 
     def _bind(self, c, obj, p):
@@ -179,20 +190,21 @@ class Program(object):
             dr.add_ignore(obj, self.comp[i])
 
     def registered(self, npad):
-        """The program as the registries describe it (R3), padded to npad."""
+        """The program as DECLARED by the driver (what was written in the decorators; for registry
+        points the registration order of the implementations), padded to npad.  The enabled flag
+        and ignore sets are read back from dr (they are set through its API)."""
         out = []
         for c in range(1, self.n + 1):
             p = self.case["prog"][c - 1]
             o = self.comp[c]
             d = dr.get_delegate(o)
-            kind = "point" if isinstance(o, RegistryPoint) else d.type.__name__
-            kind = {"component": "plain"}.get(kind, kind)
-            out.append({"kind": kind, "decl": [],
-                        "req": [self.cid(x) for x in d.requires],
-                        "grp": [[self.cid(x) for x in g] for g in d.at_least_one],
-                        "flat": [self.cid(x) for x in d.deps],
+            kind = "point" if isinstance(o, RegistryPoint) else p["kind"]
+            req = [it["ds"][0] for it in p["decl"] if it["t"] == "req"]
+            grp = [list(it["ds"]) for it in p["decl"] if it["t"] == "grp"]
+            flat = [x for it in p["decl"] for x in it["ds"]]
+            out.append({"kind": kind, "decl": [], "req": req, "grp": grp, "flat": flat,
                         "outc": p["outc"], "eouts": list(p["eouts"]) + ["val"] * (self.listlen - len(p["eouts"])),
-                        "coe": bool(getattr(d, "continue_on_error", True)),
+                        "coe": bool(p["coe"]),
                         "enabled": bool(dr.is_enabled(o)), "seeded": bool(p["seeded"]),
                         "ingraph": bool(p["ingraph"]),
                         "ignore": sorted(self.cid(x) for x in dr.IGNORE.get(o, []))})
@@ -302,14 +314,49 @@ class Recorder(object):
         if self.obsfail:
             raise RuntimeError("failing observer")
 
+    def extra_observers(self):
+        """Failing observers of every callable shape (function, partial, callable object, lambda)."""
+        import functools
+
+        def plain(comp, broker):
+            raise RuntimeError("failing plain observer")
+
+        def with_arg(tag, comp, broker):
+            raise ValueError("failing partial observer " + tag)
+
+        class Obj(object):
+            def __call__(self, comp, broker):
+                raise KeyError("failing callable-object observer")
+        return [plain, functools.partial(with_arg, "x"), Obj(), lambda c, b: 1 // 0]
+
     def end(self):
         recs = []
         for b in self.brokers:
             recs.extend(self.recs_of(b, 0))
         self.events.append({"ev": "end", "recs": recs})
 
+    def final(self):
+        """Exact projected final state (order of missing reports kept) for cross-run comparison."""
+        inst, miss, recs = [], [], []
+        for c in range(1, self.prog.n + 1):
+            o = self.prog.comp[c]
+            v, m = dict(ABSENT), dict(NOMISS)
+            for b in self.brokers:
+                if o in b:
+                    v = self.prog.proj(b[o])
+                mr = b.missing_requirements.get(o)
+                if mr is not None:
+                    m = {"set": True, "mr": [self.prog.cid(x) for x in mr[0]],
+                         "mg": [[self.prog.cid(x) for x in g] for g in mr[1]]}
+            inst.append(v)
+            miss.append(m)
+        for e in self.events:
+            for r in e.get("recs", []):
+                recs.append(json.dumps(r, sort_keys=True))
+        return {"inst": inst, "missing": miss, "recs": sorted(set(recs))}
 
-def run_case(case, driver, npad, listlen, obsfail):
+
+def run_case(case, driver, npad, listlen, obsfail, idtag=""):
     prog = Program(case, listlen)
     try:
         pooled = driver.startswith("pool")
@@ -320,9 +367,13 @@ def run_case(case, driver, npad, listlen, obsfail):
             b = dr.Broker()
             b.store_skips = bool(case["ss"])
             b.add_observer(rec.observer)
+            if obsfail:
+                for o in rec.extra_observers():
+                    b.add_observer(o)
             for c in range(1, prog.n + 1):
                 if case["prog"][c - 1]["seeded"]:
-                    b[prog.comp[c]] = Val("seed", c)
+                    # a seeded component never runs, so its (unused) outcome field picks the seed value
+                    b[prog.comp[c]] = None if case["prog"][c - 1]["outc"] == "none" else Val("seed", c)
             return b
 
         graph = prog.graph()
@@ -339,6 +390,9 @@ def run_case(case, driver, npad, listlen, obsfail):
                 orig_broker.__init__(self, seed_broker)
                 self.store_skips = bool(case["ss"])
                 self.add_observer(rec.observer)
+                if obsfail:
+                    for o in rec.extra_observers():
+                        self.add_observer(o)
 
         workers = 1
         escaped = None
@@ -378,7 +432,8 @@ def run_case(case, driver, npad, listlen, obsfail):
         else:
             rec.end()
         mode = "single" if driver in ("forced", "run") else ("pool" if pooled else "incr")
-        return {"id": "%s/%s%s" % (case["id"], driver, "/obsfail" if obsfail else ""),
+        return {"id": "%s/%s%s%s" % (case["id"], driver, idtag, "/obsfail" if obsfail else ""),
+                "final": None if escaped else rec.final(),
                 "prog": prog.registered(npad), "ss": bool(case["ss"]), "mode": mode,
                 "workers": max(workers, len(rec.threads), 1), "events": rec.events}
     finally:
@@ -401,7 +456,8 @@ def main():
             if drv != "forced" and not any(p["ingraph"] for p in case["prog"]):
                 continue    # dr.run({}) means "run the default group", not "run nothing"
             n += 1
-            traces.append(run_case(case, drv, inp["npad"], inp["listlen"], bool(every and n % every == 0)))
+            traces.append(run_case(case, drv, inp["npad"], inp["listlen"], bool(every and n % every == 0),
+                                   inp.get("idtag", "")))
     with open(sys.argv[2], "w") as f:
         json.dump({"traces": traces, "stats": {"executions": n}}, f, separators=(",", ":"))
 
